@@ -73,3 +73,40 @@ Proof.
   - intros [|k]; vm_compute; [reflexivity|destruct k; reflexivity].
   - vm_compute. reflexivity.
 Qed.
+
+(* ------------------------------------------------------------------ *)
+(* "terminates having run all required work" is FALSE of the faithful model (finding 7.34): the
+   per-task call counter that ends cyclic references also counts the references of an acyclic
+   program, so a task referenced MaximumTaskCall times from an acyclic Taskfile ends with the
+   'called too many times' class although nothing is cyclic.  Witness with cf_maxcall = 2 (the
+   machine is parametric in it; /repo's value is the extracted fact maximum_task_call): task 0
+   calls task 1 twice; the second call trips the counter (count >= maxcall, as in
+   `atomic.AddInt32(...) >= MaximumTaskCall`), Run returns a task-run error and the second
+   execution of task 1 never happens.  The harness replays this on the implementation with
+   MaximumTaskCall references (stream "fanout"); it is the recorded finding
+   exec:acyclic-fanout-trips-call-counter. *)
+Definition fan_prog : prog :=
+  [ mk [] [ CallC {| c_task := 1; c_var := VInherit |}; CallC {| c_task := 1; c_var := VInherit |} ] Always;
+    mk [] [Shell 0 false] Always ].
+Definition fan_cfg : cfg :=
+  {| cf_N := None; cf_parallel := false; cf_force := false; cf_forceall := false; cf_yes := false;
+     cf_roots := [ {| c_task := 0; c_var := VConst 0 |} ]; cf_maxcall := 2 |}.
+Definition fan_sched : list choice := concat (repeat [ChRoot 0; ChStep 0; ChStep 1; ChStep 2] 40).
+
+Example C07_fanout_acyclic : acyclic fan_prog.
+Proof.
+  exists (fun t => match t with 0 => 1 | _ => 0 end).
+  intros t d H. destruct t as [|[|[|t]]]; unfold callees, get_task in H; simpl in H;
+    repeat (destruct H as [<-|H]; [lia|]); contradiction.
+Qed.
+
+Theorem C07_all_work_refuted :
+  exists p c sched, acyclic p /\
+    (exists e, run_result p c (run p c sched) = Some (RErr e)) /\
+    length (filter (fun ev => match ev with EvProbeBegin _ _ _ => true | _ => false end) (trace (run p c sched))) = 1.
+Proof.
+  exists fan_prog, fan_cfg, fan_sched. split; [exact C07_fanout_acyclic|]. split.
+  - eexists. vm_compute. reflexivity.
+  - vm_compute. reflexivity.
+Qed.
+Print Assumptions C07_all_work_refuted.
